@@ -85,6 +85,12 @@ theorem str_replace_two (s : Str) (a b : Nat) (n : Str) :
 theorem contains_set_str (l : List PyVal) (p : Str) :
     contains_set (.tuple l) (.str p) = .ok (l.any (PyVal.eq (.str p))) := by rfl
 
+/-- the same membership tests written with a tuple or a list display instead of a set display -/
+theorem contains_tuple_str (l : List PyVal) (p : Str) :
+    contains (.tuple l) (.str p) = .ok (l.any (PyVal.eq (.str p))) := by rfl
+theorem contains_list_str (l : List PyVal) (p : Str) :
+    contains (.list l) (.str p) = .ok (l.any (PyVal.eq (.str p))) := by rfl
+
 theorem gt_int (a b : Int) : gt (.int a) (.int b) = .ok (.bool (decide (a > b))) := by
   simp [gt, cmp, asInt, Cmp.onInt]
 
@@ -339,7 +345,7 @@ open LicP
 
 /-- evaluation of one iteration of the first loop once the token and `previous` are known -/
 local macro "step_simp" "[" ts:Lean.Parser.Tactic.simpLemma,* "]" : tactic =>
-  `(tactic| simp [step, kstr, Lic.Kind.opens, Lic.Kind.closes, eq_str, contains_set_str, s_lp, s_rp, s_or, s_and, s_with,
+  `(tactic| simp [step, kstr, Lic.Kind.opens, Lic.Kind.closes, eq_str, contains_set_str, contains_tuple_str, contains_list_str, s_lp, s_rp, s_or, s_and, s_with,
       s_operator, s_license, s_exception, add_nat_one, gt_int, PyRt.eq, Lic.kLP, Lic.kRP, Lic.kOr, Lic.kAnd, Lic.kWith,
       $ts,*])
 
@@ -348,6 +354,17 @@ local macro "word_simp" "[" ts:Lean.Parser.Tactic.simpLemma,* "]" : tactic =>
   `(tactic| simp [Lic.normWord, Lic.kWithU, Lic.kRefLower, Lic.kRef, Lic.cPlus, str_endswith_str, str_startswith_str,
       getslice_str_dropLast, getslice_str_11, len_ref, ref_match_str, add_str, tbl_has_exc, tbl_has_lic, tbl_id_exc, tbl_id_lic,
       list_append_list, $ts,*])
+
+/-- the tests of the word branch (`+` suffix, `licenseref-` prefix, the table / the pattern), one case each -/
+local macro "word_split" t:term:max o:term:max "[" ts:Lean.Parser.Tactic.simpLemma,* "]" : tactic =>
+  `(tactic| (
+      cases hp : endsWith $t [Lic.cPlus] <;> simp only [Lic.cPlus] at hp
+      · cases hs : startsWith $t Lic.kRefLower <;> simp only [Lic.kRefLower] at hs
+        · cases hf : Lic.findId Gen.SpdxTables.licenses $t <;> word_simp [hp, hs, hf, $ts,*]
+        · cases hr : Lic.refAllowed (List.drop 11 $o) <;> word_simp [hp, hs, hr, $ts,*]
+      · cases hs : startsWith (List.dropLast $t) Lic.kRefLower <;> simp only [Lic.kRefLower] at hs
+        · cases hf : Lic.findId Gen.SpdxTables.licenses (List.dropLast $t) <;> word_simp [hp, hs, hf, $ts,*]
+        · cases hr : Lic.refAllowed (List.drop 11 $o) <;> word_simp [hp, hs, hr, $ts,*]))
 
 theorem canonicalize_license_expression_eq_model (raw : Str) :
     Gen.PySrc.canonicalize_license_expression (.str raw) =
@@ -395,7 +412,7 @@ theorem canonicalize_license_expression_eq_model (raw : Str) :
         obtain ⟨v, dp, pv⟩ := s'
         simp only at hd hp
         subst hd hp
-        simp only [gt_int, ok_bind, pure_ok, truthy_bool, contains_set_str, List.any_cons, List.any_nil, eq_str,
+        simp only [gt_int, ok_bind, pure_ok, truthy_bool, contains_set_str, contains_tuple_str, contains_list_str, List.any_cons, List.any_nil, eq_str,
           s_license, s_exception, Bool.or_false, closes_eq, throw_err, err_bind]
         by_cases hd : d' > 0
         · have hd' : decide ((d' : Int) > 0) = true := by simp only [decide_eq_true_eq]; omega
@@ -426,7 +443,7 @@ theorem canonicalize_license_expression_eq_model (raw : Str) :
           obtain ⟨a, b, c, n⟩ := s
           simp only at hn
           subst hn
-          simp only [pairVal, unpack2_tuple, ok_bind, contains_set_str, List.any_cons, List.any_nil, eq_str, Bool.or_false,
+          simp only [pairVal, unpack2_tuple, ok_bind, contains_set_str, contains_tuple_str, contains_list_str, List.any_cons, List.any_nil, eq_str, Bool.or_false,
             s_or, s_and, s_with, s_WITH, s_plus, s_ref, s_reflower, s_empty]
           simp only [isGrammar_eq, normStep]
           by_cases hg : Lic.isGrammar t = true
@@ -437,17 +454,13 @@ theorem canonicalize_license_expression_eq_model (raw : Str) :
           rcases eq_nil_or_snoc acc with rfl | ⟨l, w, rfl⟩
           · simp only [List.map_nil, truthy_list, List.isEmpty_nil, Bool.not_true, Bool.false_eq_true, if_false, ok_bind,
               List.getLast?_nil]
-            cases hp : endsWith t [Lic.cPlus] <;> simp only [Lic.cPlus] at hp
-            · cases hs : startsWith t Lic.kRefLower <;> simp only [Lic.kRefLower] at hs
-              · cases hf : Lic.findId Gen.SpdxTables.licenses t <;> word_simp [hp, hs, hf]
-              · cases hr : Lic.refAllowed (o.drop 11) <;> word_simp [hp, hs, hr]
-            · cases hs : startsWith t.dropLast Lic.kRefLower <;> simp only [Lic.kRefLower] at hs
-              · cases hf : Lic.findId Gen.SpdxTables.licenses t.dropLast <;> word_simp [hp, hs, hf]
-              · cases hr : Lic.refAllowed (o.drop 11) <;> word_simp [hp, hs, hr]
+            word_split t o []
           · simp only [getitem_last, truthy_list, List.isEmpty_map, snoc_isEmpty, Bool.and_false,
               Bool.not_false, if_true, ok_bind, PyRt.eq, eq_str, truthy_bool, List.getLast?_append, List.getLast?_singleton,
               Option.some_or]
-            trace_state
-            sorry
+            by_cases hw : w = [87, 73, 84, 72]
+            · subst hw
+              cases hf : Lic.findId Gen.SpdxTables.exceptions t <;> word_simp [hf]
+            · word_split t o [hw]
 
 end Src
